@@ -832,6 +832,48 @@ def d8_message_coupling(chk: Check) -> None:
         raise AnalysisError("no message-phrase test found in the tools")
 
 
+def d12_json_trial_before_open(chk: Check) -> None:
+    """Not every YAML document can be written as JSON (a date, a list or a
+    binary value as Hash key).  yaml-merge finds that out *before* it opens
+    the output: prepare_for_dump, which write_output_document calls for
+    every document ahead of `open(..., 'w')`, serialises the document to
+    JSON once (and reloads it).  Without that trial the failure happens
+    inside the `with open(...)` block: exit 1 with the --overwrite target
+    truncated to a JSON fragment, or a partial new --output file."""
+    prog = chk.prog
+    chk.rule("C17-D12", "Merger.prepare_for_dump serialises the document to "
+             "JSON (json.dump / json.dumps) in its JSON arm, and "
+             "write_output_document calls it before opening the output",
+             floor=2)
+    fi = prog.func("Merger.prepare_for_dump")
+    trial = [c for c in walk_local(fi.node) if isinstance(c, ast.Call) and
+             src(c.func) in ("json.dump", "json.dumps")]
+    if trial:
+        chk.ok("C17-D12", fi, trial[0], "prepare_for_dump: JSON trial",
+               src(trial[0])[:60])
+    else:
+        chk.fail("C17-D12", fi, fi.node, "prepare_for_dump: JSON trial",
+                 "the document is no longer serialised to JSON before the "
+                 "output file is opened: a key JSON cannot carry makes "
+                 "json.dump raise inside `with open(output, 'w')`, after "
+                 "the target was truncated")
+    w = prog.func("yaml_merge.write_output_document")
+    calls = [c for c in walk_local(w.node) if isinstance(c, ast.Call) and
+             src(c.func).endswith(".prepare_for_dump")]
+    opens = [c for c in walk_local(w.node) if isinstance(c, ast.Call) and
+             src(c.func) == "open"]
+    if not calls or not opens:
+        raise AnalysisError("prepare_for_dump / open in "
+                            "write_output_document not found")
+    if max(c.lineno for c in calls) < min(o.lineno for o in opens):
+        chk.ok("C17-D12", w, calls[0], "write_output_document: order",
+               "every prepare_for_dump precedes open()")
+    else:
+        chk.fail("C17-D12", w, opens[0], "write_output_document: order",
+                 "the output is opened before every document has been "
+                 "prepared")
+
+
 def run(chk: Check) -> None:
     model = CliModel(chk.prog)
     d1_no_exit_after_write(chk, model)
@@ -842,6 +884,7 @@ def run(chk: Check) -> None:
     d5_fault_points(chk, model)
     d6_rotate(chk, model)
     d8_message_coupling(chk)
+    d12_json_trial_before_open(chk)
     # "unreadable input: non-zero status, file unchanged": a failed load
     # must not be mistaken for an empty document that is then written out
     from rules.c16 import d8_loaded_documents
